@@ -296,6 +296,8 @@ class Engine:
         """Python truthiness -> bool or Sym(bool)."""
         if v is None:
             return False
+        if hasattr(v, "__pyvc_truth__"):  # extension values with their own truthiness (abstract strings: non-empty)
+            return v.__pyvc_truth__(self)
         if isinstance(v, z3.ExprRef):
             return self.sbool(v) if z3.is_bool(v) else self.sbool(v != 0)
         if isinstance(v, Sym):
